@@ -7,14 +7,14 @@ WRAP_KEY = "service-id-reused-after-uint32-wrap"
 
 def classify(case_line):
     # the scripted history that reproduces the stale-prevSvcMap finding (see known-findings.txt)
-    if "scripted:stale-prev-id" in case_line.get("tags", []):
+    if "scripted:stale-prev-id" in (case_line.get("tags") or []):
         return STALE_KEY
     # histories in which the driver saw a maglev-flagged frontend without a complete LUT after some single write; the
     # driver emits such a history a second time with the maglev part of the oracle off, so nothing else is masked
-    if "maglev-midupdate" in case_line.get("tags", []):
+    if "maglev-midupdate" in (case_line.get("tags") or []):
         return MAGLEV_KEY
     # the scripted history that puts the uint32 id counter at 2^32-1 (through a shim) and adds two services
-    if "scripted:id-wrap" in case_line.get("tags", []):
+    if "scripted:id-wrap" in (case_line.get("tags") or []):
         return WRAP_KEY
     return None
 
